@@ -62,7 +62,7 @@ del GET_SCHEMA_1_25["required"]
 del GET_SCHEMA_1_25["properties"]["required"]
 del GET_SCHEMA_1_25["properties"]["member_of"]
 # Pattern property key format for a numbered or un-numbered grouping
-_GROUP_PAT_FMT = "^%s(" + common.GROUP_PAT + ")?$"
+_GROUP_PAT_FMT = "^%s(" + common.GROUP_PAT + ")?\\Z"
 GET_SCHEMA_1_25["patternProperties"] = {
     _GROUP_PAT_FMT % "resources": {
         "type": "string",
@@ -86,7 +86,7 @@ GET_SCHEMA_1_31["patternProperties"][_GROUP_PAT_FMT % "in_tree"] = {
 
 # Microversion 1.33 allows more complex resource group suffixes.
 GET_SCHEMA_1_33 = copy.deepcopy(GET_SCHEMA_1_31)
-_GROUP_PAT_FMT_1_33 = "^%s(" + common.GROUP_PAT_1_33 + ")?$"
+_GROUP_PAT_FMT_1_33 = "^%s(" + common.GROUP_PAT_1_33 + ")?\\Z"
 GET_SCHEMA_1_33["patternProperties"] = {
     _GROUP_PAT_FMT_1_33 % group_type: {"type": "string"}
     for group_type in ('resources', 'required', 'member_of', 'in_tree')}
